@@ -1024,7 +1024,15 @@ func c17CheckGeo(c c17Case, model *c17Model, unit string, want []c17RefRow, geo 
 	}
 	for ci := 0; ci < ncfg; ci++ {
 		if len(all[ci]) == 0 {
-			continue // geometric mean of nothing: not decided by the statement
+			// No non-zero mean in this configuration: there is nothing whose
+			// geometric mean could be shown. How the gap is rendered is not
+			// decided by the statement (blank, zero, NaN), but a definite
+			// non-zero number is a geometric mean of data that do not exist.
+			if m := geo.Metrics[ci]; m != nil && m.Mean != 0 && !math.IsNaN(m.Mean) {
+				return kit.Failf("geomean-of-nothing", "unit %s config %d: no non-zero mean in this configuration, but the geomean row shows %v", unit, ci, m.Mean)
+			}
+			kit.Count("C17 geomean columns without any non-zero mean (must show no number)", 1)
+			continue
 		}
 		got := geo.Metrics[ci].Mean
 		ok := c17Close(got, c17GeoMean(all[ci]), 1e-10)
